@@ -232,9 +232,10 @@ class Ctx:
             "wall_s": round(wall, 2),
             "violations": len(self.violations),
         }
-        os.makedirs(os.path.join(VERIF, "evidence"), exist_ok=True)
-        with open(os.path.join(VERIF, "evidence", self.pid + ".json"), "w") as f:
-            json.dump(ev, f, indent=1, default=str)
+        if not getattr(self, "no_evidence", False):      # (a --replay run does not overwrite the evidence file)
+            os.makedirs(os.path.join(VERIF, "evidence"), exist_ok=True)
+            with open(os.path.join(VERIF, "evidence", self.pid + ".json"), "w") as f:
+                json.dump(ev, f, indent=1, default=str)
         for k in self.known:
             print("KNOWN-FINDING: property=%s %s (%d observations)" % (self.pid, k["what"], k["count"]))
         seen = set()
@@ -250,8 +251,9 @@ class Ctx:
         return 1 if self.violations else 0
 
 
-def main_run(pid, tier, seed, runner):
+def main_run(pid, tier, seed, runner, no_evidence=False):
     ctx = Ctx(pid, tier, seed)
+    ctx.no_evidence = no_evidence
     try:
         runner(ctx)
         return ctx.finish()
